@@ -88,6 +88,20 @@ func main() {
 			copy(atbl[i][0][:], w[8*i:])
 			copy(atbl[i][1][:], w[8*i+4:])
 		}
+		if len(os.Args) > 3 && os.Args[3] == "reuse" {
+			// for the valgrind memory-access tracer (bin/vgtrace.py): ONE destination per
+			// routine, used for all sixteen indices, so that the table, the destination and
+			// the stack are at the same addresses in every call of a round
+			po, pao := new(paddedOutP), new(paddedOutA)
+			for rep := 0; rep < 2; rep++ {
+				for idx := uint64(0); idx <= 15; idx++ {
+					po.out = secp256k1.Point{}
+					pao.out = secp256k1.VerifAffineEntry{}
+					lookupPair(ptbl, &po.out, atbl, &pao.out, idx, &acc)
+				}
+			}
+			continue
+		}
 		for idx := uint64(0); idx <= 15; idx++ {
 			po := new(paddedOutP)
 			out := &po.out
@@ -101,4 +115,13 @@ func main() {
 		}
 	}
 	fmt.Printf("asmprobe done acc=%016x\n", acc)
+}
+
+//go:noinline
+func lookupPair(ptbl *[15]secp256k1.Point, out *secp256k1.Point, atbl *[15]secp256k1.VerifAffineEntry, aout *secp256k1.VerifAffineEntry, idx uint64, acc *uint64) {
+	secp256k1.VerifLookupProjective(ptbl, out, idx)
+	x, y, z, _ := out.VerifRaw()
+	*acc ^= x[0] ^ y[1] ^ z[2]
+	secp256k1.VerifLookupAffine(atbl, aout, idx)
+	*acc ^= aout[0][0] ^ aout[1][3]
 }
